@@ -2,7 +2,8 @@
   C18 — property theorems (PCM byte codecs are exact: chunk packing and WAV sample decoding).
   Only statements of the property, non-vacuity examples and the audit live here; helper lemmas
   are in `ALV.Lemmas.C18` (codecs), `C18Chunks` (both chunk strategies refine the spec),
-  `C18Wav` (reader chain, laziness), `C18Round` (round trip), `C18Norm` (range, Mathlib order).
+  `C18Wav` (reader chain, laziness), `C18Round` (round trip), `C18Norm` (range, Mathlib order),
+  `C18Src` (the definitions regenerated from the source by `harness/props/c18_tr.py` are the model).
 
   Quantifiers: every width `w ≥ 1`, both byte orders, every machine order, every chunk size ≥ 1,
   every sequence length, every item type / element encoder (so b h i f d alike), every sample
@@ -15,6 +16,7 @@ import ALV.Lemmas.C18Res
 import ALV.Model.C18Riff
 import ALV.Lemmas.C18Riff
 import ALV.Lemmas.C18Call
+import ALV.Lemmas.C18Src
 import ALV.Common.Audit
 
 namespace ALV.Props.C18
@@ -832,6 +834,87 @@ theorem stored_normalised_in_unit_interval {K : Type} [Field K] [LinearOrder K] 
 example : ((wavSpec 8 false [0, 255, 128] : List (Sample Rat)).map fun | .scaled x => x | .raw _ => 7)
     = [-1, 127 / 128, 0] := by decide +kernel
 example : stored 8 0 ∧ stored 8 255 ∧ stored 24 (-8388608) := by decide
+
+/-! ## the model is what the source says (translator `harness/props/c18_tr.py`)
+
+`ALV.Gen.C18.*` is rewritten from `audiolazy/lazy_wav.py` / `lazy_io.py` before every build.  Each theorem below says
+that a regenerated definition IS the hand-written model function all theorems above are about; an edit of the source
+that changes the meaning of one of these functions breaks its theorem on the next run. -/
+
+/-- **C18.41** the `_unpackers` table of the source, as programs, is the table of the model … -/
+theorem src_unpackers_is_model : ALV.Gen.C18.unpackers = unpackersModel := by decide
+
+/-- … and the model's `unpacker` is what those programs compute: `WavStream._unpackers[bits]`, for every `bits`, is the
+model's decoder of that width (`none` = KeyError). -/
+theorem src_unpackers_run (bits : Nat) :
+    (lookupNat bits ALV.Gen.C18.unpackers).map IExp.run = unpacker bits := by
+  rw [src_unpackers_is_model, unpacker_eq_table]
+
+example : (lookupNat 24 ALV.Gen.C18.unpackers).map (fun p => p.run [0x00, 0x00, 0x80]) = some (.ok (-8388608)) := by
+  decide
+
+/-- **C18.42** `def __init__(self, wave_file, keep=False)`: the parameter list the model binds calls to, and the value
+of an omitted `keep`. -/
+theorem src_init_signature_is_model :
+    ALV.Gen.C18.initParams = wavParams ∧ bindWav [.file] [] = some (.file, ALV.Gen.C18.keepDefault) :=
+  ⟨by decide, rfl⟩
+
+/-- **C18.43** `block_reader` of the source (one frame per read, until `b""`) is the model's. -/
+theorem src_block_reader_is_model : ALV.Gen.C18.blockReader = blockReader := by
+  funext fs data
+  simp [ALV.Gen.C18.blockReader, readLoop]
+
+/-- **C18.44** `sample_reader` of the source is the model's (which is given `bits // 8` as the sample width). -/
+theorem src_sample_reader_is_model :
+    (fun channels bits frames => ALV.Gen.C18.sampleReader channels bits frames)
+      = fun channels bits frames => sampleReader channels (bits / 8) frames := rfl
+
+/-- **C18.45** `data_generator` of the source — table lookup, the `keep` branch, `d = 1 << (bits - 1)`, the 8-bit
+override `ord(v) - 128`, the true division — is the model's. -/
+theorem src_data_generator_is_model {K : Type} [IntCast K] [Div K] :
+    @ALV.Gen.C18.dataGenerator K _ _ = @dataGenerator K _ _ := by
+  funext bits keep samples
+  exact gen_dataGenerator_eq bits keep samples
+
+/-- **C18.46** `WavStream.__init__` of the source (rate, channels, `bits = 8 * sampwidth`, the chain
+`data_generator ∘ sample_reader ∘ block_reader`) is the model's `wavStream`. -/
+theorem src_wavstream_is_model {K : Type} [IntCast K] [Div K] :
+    @ALV.Gen.C18.wavStream K _ _ = @wavStream K _ _ := by
+  funext f keep
+  simp only [ALV.Gen.C18.wavStream, wavStream, src_data_generator_is_model, src_block_reader_is_model]
+  rfl
+
+example : ((ALV.Gen.C18.wavStream ⟨2, 2, 8000, [0xFF, 0x7F, 0x00, 0x80]⟩ true : WavObs Rat).gen.out.map
+    fun | .raw n => n | .scaled _ => 0) = [32767, -32768] := by decide +kernel
+
+/-- **C18.47** `chunks.struct` of the source — the format string `[byte_order] str(size) dfmt`, `struct.Struct`, one
+`pack(*block)` per block of `blocks(seq, size, padval=padval)` — is the model's, for every size ≥ 1; in particular the
+item count of the format always matches the block (`struct.error` for a wrong count, `none` here, never occurs). -/
+theorem src_chunks_struct_is_model (native : Order) (a : OrderArg) (fmt : Fmt) (size : Nat) (hs : 0 < size)
+    (pad : PVal) (xs : List PVal) :
+    ALV.Gen.C18.chunksStruct native a fmt size pad xs = (chunksStructPy native a fmt size pad xs).someErr :=
+  gen_chunksStruct_eq native a fmt size hs pad xs
+
+example : (ALV.Gen.C18.chunksStruct .little .gt .h 2 (.int 0) [.int 1, .int 2, .int 3]).out
+    = [[0, 1, 0, 2], [0, 3, 0, 0]] := by decide +kernel
+
+/-- **C18.48** the byte-order table of `chunks.array` is the model's … -/
+theorem src_array_order_is_model : ALV.Gen.C18.arrayOrderTable = orderTableModel := by decide
+
+/-- … so the order `chunks.array` exports in is the one the model resolves for every spelling of `byte_order`, and the
+source's `swap` is exactly the test of `exportCells` (`order = native` = no swap). -/
+theorem src_array_swap_is_model (native : Order) (a : OrderArg) :
+    ALV.Gen.C18.arraySwap native a = (resolveOrder native a.order != native)
+    ∧ ∀ cells, exportCells native (resolveOrder native a.order) cells
+        = (if ALV.Gen.C18.arraySwap native a then cells.map List.reverse else cells).flatten := by
+  have h : ALV.Gen.C18.arraySwap native a = (resolveOrder native a.order != native) := by
+    unfold ALV.Gen.C18.arraySwap
+    rw [src_array_order_is_model, orderGet_model]
+  refine ⟨h, fun cells => ?_⟩
+  rw [h]
+  unfold exportCells
+  cases native <;> cases (resolveOrder _ a.order) <;> rfl
+
 
 end ALV.Props.C18
 
